@@ -6,12 +6,12 @@ package main
 import (
 	"encoding/json"
 	"fmt"
-	"regexp"
-	"runtime"
 	"math"
 	"math/big"
 	"os"
 	"path/filepath"
+	"regexp"
+	"runtime"
 	"strings"
 	"unicode/utf8"
 
@@ -554,7 +554,10 @@ func laws() []law {
 		{name: "tonumber-accepts-number-literals-only", a: `try (tonumber | true) catch false`, in: strIn, want: func(in, _ any) any { return numberLiteral.MatchString(in.(string)) }, judges: []string{"tonumber"}},
 		{name: "json-is-tojson", a: `@json == tojson and @text == tostring`, in: anyV, judges: []string{"tojson", "tostring"}},
 		{name: "tojson-fromjson", a: `(tojson | fromjson) == .`, in: plainJSON, judges: []string{"tojson"}},
-		{name: "fromjson-tojson-fromjson", a: `try (fromjson | tojson | fromjson) catch "e"`, b: `try fromjson catch "e"`, in: func(v any) bool { s, ok := v.(string); return ok && !strings.Contains(s, "e4") && !strings.Contains(s, "e-4") },
+		{name: "fromjson-tojson-fromjson", a: `try (fromjson | tojson | fromjson) catch "e"`, b: `try fromjson catch "e"`, in: func(v any) bool {
+			s, ok := v.(string)
+			return ok && !strings.Contains(s, "e4") && !strings.Contains(s, "e-4")
+		},
 			judges: []string{"fromjson"}},
 		{name: "base64-uri-roundtrip", a: `(@base64 | @base64d) == . and (@uri | @urid) == .`, in: strIn, judges: []string{"_tobase64", "_tobase64d", "_touri", "_tourid"}},
 		{name: "has-keys-object", a: `has($x) == (keys | index($x) != null)`, in: isObj, x: strX, judges: []string{"has"}},
@@ -598,7 +601,10 @@ func laws() []law {
 		{name: "slice-saturates", a: `[.[:$x], .[$x:]]`, b: `if $x > 0 then [., (if type == "string" then "" else [] end)] else [(if type == "string" then "" else [] end), .] end`, in: func(v any) bool { return (isArr(v) && noNaN(v)) || isStr(v) && utf8.ValidString(v.(string)) },
 			x: func(_, x any) bool { return isNum(x) && !math.IsNaN(toF(x)) && math.Abs(toF(x)) >= 4611686018427387904 }, judges: []string{"_slice", "_index"}},
 		{name: "modulo-of-huge-floats", a: `[($x % 7), (7 % $x)]`, b: `if $x > 0 then [(9223372036854775807 % 7), 7] else [(-9223372036854775808 % 7), 7] end`, in: func(any) bool { return true },
-			x: func(_, x any) bool { f, ok := x.(float64); return ok && !math.IsNaN(f) && math.Abs(f) >= 9223372036854775808 }, judges: []string{"_modulo"}},
+			x: func(_, x any) bool {
+				f, ok := x.(float64)
+				return ok && !math.IsNaN(f) && math.Abs(f) >= 9223372036854775808
+			}, judges: []string{"_modulo"}},
 		{name: "string-index-codepoints", a: `.[$x]`, b: `explode | .[$x] | if . == null then null else [.] | implode end`, in: validStr, x: func(_, x any) bool { i, ok := x.(int); return ok && i > -1000 && i < 1000 }, judges: []string{"_index"}},
 		{name: "alternative-is-falsy-test", a: `_alternative(.; $x)`, b: `if . == null or . == false then $x else . end`, in: func(any) bool { return true }, x: func(_, _ any) bool { return true }, judges: []string{"_alternative"}},
 		{name: "alternative-update", a: `[., .] | .[0] //= $x | .[0]`, b: `if . == null or . == false then $x else . end`, in: func(v any) bool { return noNaN(v) }, x: func(_, x any) bool { return noNaN(x) }, judges: []string{"_alternative"}},
@@ -616,7 +622,10 @@ func laws() []law {
 		{name: "sort-stable", a: `sort`, b: `to_entries | map([.value, .key, .value]) | sort | map(.[2])`, in: arrIn, judges: []string{"sort"}},
 		{name: "unique-keeps-first", a: `unique`, b: `to_entries | map([.value, .key, .value]) | sort | reduce .[] as $e ([]; if length > 0 and .[-1][0] == $e[0] then . else . + [$e] end) | map(.[2])`, in: arrIn, judges: []string{"unique"}},
 		{name: "sort-is-sorted-permutation", a: `sort as $s | ($s | length) == length and all(range(1; $s | length) as $i | $s[$i - 1] <= $s[$i]; .) and ($s | unique) == unique`, in: arrIn, judges: []string{"sort", "unique"}},
-		{name: "floor-ceil-bracket", a: `floor <= . and . <= ceil and (ceil - floor) <= 1 and (trunc == floor or trunc == ceil)`, in: func(v any) bool { f, ok := v.(float64); return ok && !math.IsNaN(f) && !math.IsInf(f, 0) && math.Abs(f) < 1e15 }},
+		{name: "floor-ceil-bracket", a: `floor <= . and . <= ceil and (ceil - floor) <= 1 and (trunc == floor or trunc == ceil)`, in: func(v any) bool {
+			f, ok := v.(float64)
+			return ok && !math.IsNaN(f) && !math.IsInf(f, 0) && math.Abs(f) < 1e15
+		}},
 		{name: "math-rounding-is-go-math", a: `[floor, ceil, round, trunc, fabs, nearbyint, rint, significand, logb]`, in: isNum, want: func(in, _ any) any {
 			f := toF(in)
 			fr, _ := math.Frexp(f)
@@ -627,7 +636,9 @@ func laws() []law {
 		{name: "abs", a: `abs == (if . < 0 then -. else . end) and abs >= 0`, in: isFiniteNum, judges: []string{"abs"}},
 		{name: "gmtime-mktime-roundtrip", a: `((gmtime | mktime) - .) | fabs < 0.000001`, in: func(v any) bool { return isFiniteNum(v) && math.Abs(toF(v)) < 1e11 }, judges: []string{"gmtime", "mktime"}},
 		{name: "gmtime-fields", a: `gmtime as $t | (floor | gmtime) as $w | $t[0:5] == $w[0:5] and $t[6:8] == $w[6:8] and (($t[5] - $w[5] - (. - floor)) | fabs < 0.000001)`,
-			in: func(v any) bool { return isFiniteNum(v) && math.Abs(toF(v)) < 1e11 && (toF(v) >= 0 || toF(v) == math.Floor(toF(v))) }, judges: []string{"gmtime"}},
+			in: func(v any) bool {
+				return isFiniteNum(v) && math.Abs(toF(v)) < 1e11 && (toF(v) >= 0 || toF(v) == math.Floor(toF(v)))
+			}, judges: []string{"gmtime"}},
 		{name: "type-errors-are-catchable", a: `[try (keys | "v") catch "e", try (explode | "v") catch "e", try (sin | "v") catch "e", try (implode | "v") catch "e"] | all(.[]; . == "v" or . == "e")`, in: anyV},
 	}
 }
@@ -915,10 +926,51 @@ func lawsOracle(ctx *common.Ctx, o *common.Oracle, cl []*claw) {
 			}
 		}
 	}
+	// array difference with LONG right operands (beyond any small-size fast path), numbers in every
+	// carrier and spelling, NaN and null: $a - $b keeps exactly the elements of $a equal to no element of $b
+	dc, err := gojq.Compile(parseQ(`[$a - $b, [$a[] | select(. as $x | all($b[]; . != $x))]]`), gojq.WithVariables([]string{"$a", "$b"}))
+	if err != nil {
+		panic(err)
+	}
+	leftPool := []any{1, 1.0, json.Number("1.0"), json.Number("1e0"), json.Number("100"), json.Number("1e2"), json.Number("-0"), 0, 0.0, math.Copysign(0, -1), nil, math.NaN(), "1", []any{1}, []any{json.Number("1.0")},
+		map[string]any{"a": 1.0}, bigOf("100000000000000000000"), json.Number("100000000000000000000"), 1e20, 2, 50, 150, 33.5, false, true, "", json.Number("2.50"), 2.5}
+	for _, n := range []int{0, 1, 5, 31, 32, 33, 34, 64, 65, 100, 257} {
+		for rep := 0; rep < ctx.N(6, 40); rep++ {
+			b := make([]any, n)
+			for i := range b {
+				switch r.Intn(6) {
+				case 0:
+					b[i] = common.Pick(r, leftPool)
+				case 1:
+					b[i] = float64(i)
+				case 2:
+					b[i] = json.Number(fmt.Sprint(i))
+				default:
+					b[i] = i + 1
+				}
+			}
+			a := make([]any, r.Range(1, 8))
+			for i := range a {
+				a[i] = common.Pick(r, leftPool)
+			}
+			out := common.RunCode(dc, nil, 2000000, 10, a, b)
+			o.Cases++
+			o.Distribution["array-difference-long"]++
+			distinct++
+			ok := out.Err == nil && out.Panic == "" && len(out.Outs) == 1
+			if ok {
+				pair, isArr := out.Outs[0].([]any)
+				ok = isArr && len(pair) == 2 && common.Canon(pair[0]) == common.Canon(pair[1])
+			}
+			if !ok {
+				ctx.Violate(fmt.Sprintf("law:array-difference-long:%d", n), fmt.Sprintf("$a - $b with %d elements on the right: [$a - $b, the elements of $a equal to no element of $b] = %s", n, clipS(common.CanonOutcome(out), 300)),
+					map[string]any{"a": common.Canon(a), "b": common.Canon(b), "a_json": marshalS(a), "b_json": marshalS(b), "observed": common.CanonOutcome(out), "cmd": "gojq -nc --argjson a '<a_json>' --argjson b '<b_json>' '$a - $b'"})
+			}
+		}
+	}
 	o.Distinct = distinct
 	o.Samples = []string{`"é漢" | length == (explode | length)`, `[[1,2],[3]] | flatten | all(.[]; type != "array")`, `"a,b, c" | (split(", ") | join(", ")) == .`}
 }
-
 
 // tieRichArrays: arrays of 13..70 elements over very few distinct keys, with members that compare
 // equal but can be told apart: [key, payload] pairs, and plain numbers in different carriers /
